@@ -212,3 +212,160 @@ spec fn lookup_result(rrs: Seq<ResourceRecord>, parts: Map<DomainName, Partition
 }
 pub broadcast axiom fn axiom_rtd_eq(a: RecordTypeWithData, b: RecordTypeWithData) ensures #[trigger] a.eq_spec(&b) == (a == b);
 pub broadcast axiom fn axiom_rtd_obeys() ensures #[trigger] <RecordTypeWithData as vstd::std_specs::cmp::PartialEqSpec>::obeys_eq_spec();
+
+// C05: expiry removes exactly what is due: every stored tuple not yet due at the clock reading `now` is still stored, nothing is added
+spec fn expired_only<K1, K2: Eq + Hash, V>(m0: Map<K1, Partition<K2, V>>, m1: Map<K1, Partition<K2, V>>, now: Instant) -> bool {
+    &&& forall|k1: K1, k2: K2, i: int| m0.contains_key(k1) && #[trigger] has_tuple(m0[k1].records@, k2, i) && inst(m0[k1].records@[k2]@[i].1) > inst(now)
+            ==> m1.contains_key(k1) && m1[k1].records@.contains_key(k2) && m1[k1].records@[k2]@.contains(m0[k1].records@[k2]@[i])
+    &&& forall|k1: K1, k2: K2, i: int| m1.contains_key(k1) && #[trigger] has_tuple(m1[k1].records@, k2, i)
+            ==> m0.contains_key(k1) && m0[k1].records@.contains_key(k2) && m0[k1].records@[k2]@.contains(m1[k1].records@[k2]@[i])
+}
+spec fn expiry_step_ok<K1, K2: Eq + Hash, V>(m0: Map<K1, Partition<K2, V>>, m1: Map<K1, Partition<K2, V>>) -> bool {
+    m1 == m0 || exists|now: Instant| is_now(now) && #[trigger] expired_only(m0, m1, now)
+}
+proof fn lemma_filter_sub_g<A>(s: Seq<A>, p: spec_fn(A) -> bool, i: int)
+    requires 0 <= i < s.filter(p).len()
+    ensures s.contains(s.filter(p)[i])
+    decreases s.len()
+{
+    reveal(Seq::filter);
+    if s.len() > 0 {
+        let d = s.drop_last();
+        if i < d.filter(p).len() {
+            lemma_filter_sub_g(d, p, i);
+            let w = choose|w: int| 0 <= w < d.len() && d[w] == d.filter(p)[i];
+            assert(s[w] == d[w]);
+            assert(s.filter(p)[i] == d.filter(p)[i]);
+        } else {
+            assert(p(s.last()) && s.filter(p)[i] == s.last());
+            assert(s[s.len() - 1] == s.last());
+        }
+    }
+}
+proof fn lemma_filter_has_g<A>(s: Seq<A>, p: spec_fn(A) -> bool, i: int)
+    requires 0 <= i < s.len(), p(s[i])
+    ensures s.filter(p).contains(s[i])
+    decreases s.len()
+{
+    reveal(Seq::filter);
+    if i == s.len() - 1 { assert(s.filter(p).last() == s[i]); }
+    else {
+        lemma_filter_has_g(s.drop_last(), p, i); assert(s.drop_last()[i] == s[i]);
+        let w = choose|w: int| 0 <= w < s.drop_last().filter(p).len() && s.drop_last().filter(p)[w] == s[i];
+        assert(s.filter(p)[w] == s[i]);
+    }
+}
+// the step on one partition: every record vector becomes its filter by `not yet due`; the partition is dropped when nothing is left
+proof fn lemma_expired_only_step<K1, K2: Eq + Hash, V>(m0: Map<K1, Partition<K2, V>>, m1: Map<K1, Partition<K2, V>>, pk: K1, recs_f: Map<K2, Vec<(V, Instant)>>, now: Instant)
+    requires m0.contains_key(pk),
+        forall|k: K2| #[trigger] recs_f.contains_key(k) <==> m0[pk].records@.contains_key(k),
+        forall|k: K2| m0[pk].records@.contains_key(k) ==> (#[trigger] recs_f[k])@ == m0[pk].records@[k]@.filter(unexp::<V>(now)),
+        (m1.contains_key(pk) && m1[pk].records@ == recs_f && m1 == m0.insert(pk, m1[pk]))
+            || (m1 == m0.remove(pk) && forall|k: K2| recs_f.contains_key(k) ==> (#[trigger] recs_f[k])@.len() == 0),
+    ensures expired_only(m0, m1, now)
+{
+    assert forall|k1: K1, k2: K2, i: int| m0.contains_key(k1) && #[trigger] has_tuple(m0[k1].records@, k2, i) && inst(m0[k1].records@[k2]@[i].1) > inst(now)
+        implies m1.contains_key(k1) && m1[k1].records@.contains_key(k2) && m1[k1].records@[k2]@.contains(m0[k1].records@[k2]@[i]) by {
+        if k1 == pk {
+            lemma_filter_has_g(m0[pk].records@[k2]@, unexp::<V>(now), i);
+            assert(recs_f[k2]@.contains(m0[pk].records@[k2]@[i]));
+            assert(recs_f[k2]@.len() > 0);
+        }
+    }
+    assert forall|k1: K1, k2: K2, i: int| m1.contains_key(k1) && #[trigger] has_tuple(m1[k1].records@, k2, i)
+        implies m0.contains_key(k1) && m0[k1].records@.contains_key(k2) && m0[k1].records@[k2]@.contains(m1[k1].records@[k2]@[i]) by {
+        if k1 == pk {
+            assert(recs_f.contains_key(k2));
+            assert(m0[pk].records@.contains_key(k2));
+            let f = m0[pk].records@[k2]@.filter(unexp::<V>(now));
+            m0[pk].records@[k2]@.filter_lemma(unexp::<V>(now));
+            assert(m1.contains_key(pk));
+            assert(m1[pk].records@ == recs_f);
+            assert(recs_f[k2]@ == f);
+            assert(0 <= i < f.len());
+            assert(m1[pk].records@[k2]@[i] == f[i]);
+            lemma_filter_sub_g(m0[pk].records@[k2]@, unexp::<V>(now), i);
+            assert(m0[pk].records@[k2]@.contains(f[i]));
+        } else {
+            assert(m1[k1] == m0[k1]);
+        }
+    }
+}
+
+// C05: "a record that has neither expired nor been evicted is [still stored]": a tuple whose expiry lies after every clock reading
+// survives unless its whole name was evicted; and nothing is ever added by pruning
+spec fn never_due(t: Instant) -> bool { forall|now: Instant| is_now(now) ==> inst(t) > inst(#[trigger] now_id(now)) }
+spec fn now_id(t: Instant) -> Instant { t }
+spec fn live_kept<K1, K2: Eq + Hash, V>(m0: Map<K1, Partition<K2, V>>, m1: Map<K1, Partition<K2, V>>) -> bool {
+    &&& forall|k1: K1, k2: K2, i: int| m0.contains_key(k1) && #[trigger] has_tuple(m0[k1].records@, k2, i) && never_due(m0[k1].records@[k2]@[i].1) && m1.contains_key(k1)
+            ==> m1[k1].records@.contains_key(k2) && m1[k1].records@[k2]@.contains(m0[k1].records@[k2]@[i])
+    &&& forall|k1: K1, k2: K2, i: int| m1.contains_key(k1) && #[trigger] has_tuple(m1[k1].records@, k2, i)
+            ==> m0.contains_key(k1) && m0[k1].records@.contains_key(k2) && m0[k1].records@[k2]@.contains(m1[k1].records@[k2]@[i])
+}
+// expiry alone never drops the name of a live record
+spec fn live_names_kept<K1, K2: Eq + Hash, V>(m0: Map<K1, Partition<K2, V>>, m1: Map<K1, Partition<K2, V>>) -> bool {
+    forall|k1: K1, k2: K2, i: int| m0.contains_key(k1) && #[trigger] has_tuple(m0[k1].records@, k2, i) && never_due(m0[k1].records@[k2]@[i].1) ==> m1.contains_key(k1)
+}
+proof fn lemma_live_kept_refl<K1, K2: Eq + Hash, V>(m: Map<K1, Partition<K2, V>>)
+    ensures live_kept(m, m), live_names_kept(m, m)
+{}
+proof fn lemma_live_kept_step<K1, K2: Eq + Hash, V>(m0: Map<K1, Partition<K2, V>>, m1: Map<K1, Partition<K2, V>>)
+    requires expiry_step_ok(m0, m1)
+    ensures live_kept(m0, m1), live_names_kept(m0, m1)
+{
+    if m1 != m0 {
+        let now = choose|now: Instant| is_now(now) && #[trigger] expired_only(m0, m1, now);
+        assert(now_id(now) == now);
+        assert forall|k1: K1, k2: K2, i: int| m0.contains_key(k1) && #[trigger] has_tuple(m0[k1].records@, k2, i) && never_due(m0[k1].records@[k2]@[i].1)
+            implies m1.contains_key(k1) && m1[k1].records@.contains_key(k2) && m1[k1].records@[k2]@.contains(m0[k1].records@[k2]@[i]) by {
+            assert(inst(m0[k1].records@[k2]@[i].1) > inst(now_id(now)));
+        }
+        assert(expired_only(m0, m1, now));
+        assert forall|k1: K1, k2: K2, i: int| m1.contains_key(k1) && #[trigger] has_tuple(m1[k1].records@, k2, i)
+            implies m0.contains_key(k1) && m0[k1].records@.contains_key(k2) && m0[k1].records@[k2]@.contains(m1[k1].records@[k2]@[i]) by {
+            let t = m1[k1].records@[k2]@[i];
+            assert(m1.contains_key(k1) && has_tuple(m1[k1].records@, k2, i));
+            assert(m0.contains_key(k1));
+        }
+    } else {
+        lemma_live_kept_refl(m0);
+    }
+}
+proof fn lemma_live_kept_trans<K1, K2: Eq + Hash, V>(m0: Map<K1, Partition<K2, V>>, m1: Map<K1, Partition<K2, V>>, m2: Map<K1, Partition<K2, V>>)
+    requires live_kept(m0, m1), live_kept(m1, m2), forall|k: K1| m2.contains_key(k) ==> m1.contains_key(k)
+    ensures live_kept(m0, m2)
+{
+    assert forall|k1: K1, k2: K2, i: int| m0.contains_key(k1) && #[trigger] has_tuple(m0[k1].records@, k2, i) && never_due(m0[k1].records@[k2]@[i].1) && m2.contains_key(k1)
+        implies m2[k1].records@.contains_key(k2) && m2[k1].records@[k2]@.contains(m0[k1].records@[k2]@[i]) by {
+        let t = m0[k1].records@[k2]@[i];
+        assert(m1.contains_key(k1));
+        assert(m1[k1].records@[k2]@.contains(t));
+        let j = choose|j: int| 0 <= j < m1[k1].records@[k2]@.len() && m1[k1].records@[k2]@[j] == t;
+        assert(has_tuple(m1[k1].records@, k2, j));
+        assert(never_due(m1[k1].records@[k2]@[j].1));
+        assert(m2[k1].records@[k2]@.contains(m1[k1].records@[k2]@[j]));
+    }
+    assert forall|k1: K1, k2: K2, i: int| m2.contains_key(k1) && #[trigger] has_tuple(m2[k1].records@, k2, i)
+        implies m0.contains_key(k1) && m0[k1].records@.contains_key(k2) && m0[k1].records@[k2]@.contains(m2[k1].records@[k2]@[i]) by {
+        let t = m2[k1].records@[k2]@[i];
+        assert(m1[k1].records@[k2]@.contains(t));
+        let j = choose|j: int| 0 <= j < m1[k1].records@[k2]@.len() && m1[k1].records@[k2]@[j] == t;
+        assert(has_tuple(m1[k1].records@, k2, j));
+        assert(m0[k1].records@[k2]@.contains(m1[k1].records@[k2]@[j]));
+    }
+}
+proof fn lemma_live_names_trans<K1, K2: Eq + Hash, V>(m0: Map<K1, Partition<K2, V>>, m1: Map<K1, Partition<K2, V>>, m2: Map<K1, Partition<K2, V>>)
+    requires live_kept(m0, m1), live_names_kept(m0, m1), live_names_kept(m1, m2)
+    ensures live_names_kept(m0, m2)
+{
+    assert forall|k1: K1, k2: K2, i: int| m0.contains_key(k1) && #[trigger] has_tuple(m0[k1].records@, k2, i) && never_due(m0[k1].records@[k2]@[i].1) implies m2.contains_key(k1) by {
+        let t = m0[k1].records@[k2]@[i];
+        assert(m1[k1].records@[k2]@.contains(t));
+        let j = choose|j: int| 0 <= j < m1[k1].records@[k2]@.len() && m1[k1].records@[k2]@[j] == t;
+        assert(has_tuple(m1[k1].records@, k2, j));
+        assert(m1[k1].records@[k2]@[j].1 == t.1);
+    }
+}
+proof fn lemma_live_kept_remove<K1, K2: Eq + Hash, V>(m: Map<K1, Partition<K2, V>>, k: K1)
+    ensures live_kept(m, m.remove(k))
+{}
